@@ -62,6 +62,11 @@ func c03Exec(c *c03lib.Case) c03lib.Outcome {
 	return c03lib.Outcome{Clause: "unknown decoder", Detail: c.Dec}
 }
 
+// c03CloseSession1 is not a datagram: in a sequence it stands for "the application closes session 1"
+// (added after the independently seeded change C03-5: a last-session cache in feed that outlives
+// the session, so that a late reply is sent on a closed channel).
+var c03CloseSession1 = []byte{0xff, 'c', 'l', 'o', 's', 'e', 1}
+
 func c03Feed(seq []c03lib.Hex) c03lib.Outcome {
 	io := &c03IO{limit: 1200, closeCh: make(chan struct{})}
 	m := newUDPSessionManager(io) // starts run(), which blocks in ReceiveMessage until the end
@@ -73,7 +78,16 @@ func c03Feed(seq []c03lib.Hex) c03lib.Outcome {
 	}
 	cls := ""
 	fed := 0
+	closed1 := false
 	for _, raw := range seq {
+		if bytes.Equal(raw, c03CloseSession1) {
+			// the application closes session 1 locally; the server is not told and keeps sending
+			// for that id until its own idle timeout: later datagrams of the sequence arrive late
+			_ = c1.Close()
+			closed1 = true
+			cls += "c"
+			continue
+		}
 		msg, err := protocol.ParseUDPMessage(c03lib.Fresh(raw))
 		if err != nil {
 			cls += "x"
@@ -89,6 +103,9 @@ func c03Feed(seq []c03lib.Hex) c03lib.Outcome {
 		m.feed(msg)
 	}
 	for i, conn := range []HyUDPConn{c1, c2} {
+		if i == 0 && closed1 {
+			continue
+		}
 		want := fmt.Sprintf("PONG%d", i+1)
 		ok := false
 		for n := 0; n <= fed+1; n++ { // at most one Receive per queued message
@@ -165,7 +182,7 @@ func c03Enumerate(sh *evidence.Shard) {
 		datas = []string{"x", "yz"}
 	}
 	mk := func(sessions []uint32, hdrs [][3]int) [][]byte {
-		out := [][]byte{{}, {0, 0, 0, 1, 0, 0, 0}, {0, 0, 0, 1, 0, 0, 0, 1, 0}, {0, 0, 0, 1, 0, 0, 0, 1, 1, 'a'}, {0, 0, 0, 1, 0, 0, 0, 1, 0x48, 1}}
+		out := [][]byte{c03CloseSession1, {}, {0, 0, 0, 1, 0, 0, 0}, {0, 0, 0, 1, 0, 0, 0, 1, 0}, {0, 0, 0, 1, 0, 0, 0, 1, 1, 'a'}, {0, 0, 0, 1, 0, 0, 0, 1, 0x48, 1}}
 		for _, s := range sessions {
 			for _, h := range hdrs {
 				for _, d := range datas {
@@ -187,7 +204,7 @@ func c03Enumerate(sh *evidence.Shard) {
 	}
 	a3 := mk(ss, hdrs)
 	cfgs := []cfg{{"feed+Receive/seq3", a3, 3, map[string]any{"sessions": "1 (open), 7 (unknown); thorough also 2 (open)", "pktid_fragid_fragcount": hdrs, "data_len": "1 (thorough: 1, 2)",
-		"malformed": "empty, 7-byte header, address length 0, no payload byte, address length 2049", "messages": len(a3), "max_depth": 3}}}
+		"malformed": "empty, 7-byte header, address length 0, no payload byte, address length 2049", "local_events": "the application closes session 1 (datagrams after it are late replies)", "messages": len(a3), "max_depth": 3}}}
 	if th {
 		a4 := mk([]uint32{1, 7}, [][3]int{{0, 0, 1}, {5, 0, 2}, {5, 1, 2}, {5, 2, 2}, {6, 1, 2}, {5, 254, 255}, {5, 0, 3}})
 		cfgs = append(cfgs, cfg{"feed+Receive/seq4", a4, 4, map[string]any{"sessions": "1 (open), 7 (unknown)", "pktid_fragid_fragcount": "{0,0,1},{5,0,2},{5,1,2},{5,2,2},{6,1,2},{5,254,255},{5,0,3}", "data_len": []int{1, 2}, "malformed": "as seq3", "messages": len(a4), "max_depth": 4}})
